@@ -15,7 +15,7 @@ from .arrayhist import Viol
 METHODS = ['write_txt', 'write_jsonfile', 'write_jsondict', 'update_jsondict', 'delete_files', 'open_file']
 MODES = ['w', 'a', 'x', 'r+', 'rb+', 'wb', 'ab', 'w+', 'a+']
 SPELL = ['str', 'Path', 'dot', 'dotdot', 'dslash', 'trail', 'sub', 'updir', 'abs', 'absPath']
-USERNAMES = ['notes.txt', 'a.json', 'ü.txt', 'data.csv', 'b']
+USERNAMES = ['notes.txt', 'a.json', 'ü.txt', 'data.csv', 'b', 'notes.tmp', 'a.tmp', 'a.json.tmp', 'b.bak']
 TEXTS = ['', 'hello', 'line1\nline2\n', 'ünïcödé ✓ 日本', 'tab\tsep', 'quote"s\\', ' trailing ', '\n\n', 'x' * 300]
 
 
